@@ -10,7 +10,7 @@
    is what the correspondence stage compares bit for bit with CPython. *)
 From Coq Require Import List ZArith Bool QArith Qcanon.
 From Coq Require Import Reals.
-From RxVerif Require Import Math.Exact Math.ExactProofs Math.FloatModel Math.C12Corr Math.SumErrorProofs Math.SumRunningProofs Math.MeanErrorProofs Math.MinMaxFloatProofs Math.FloatOpsProofs Math.VarianceFloatProofs Math.VarianceNonnegProofs.
+From RxVerif Require Import Math.Exact Math.ExactProofs Math.FloatModel Math.C12Corr Math.SumErrorProofs Math.SumRunningProofs Math.MeanErrorProofs Math.MinMaxFloatProofs Math.FloatOpsProofs Math.VarianceFloatProofs Math.VarianceNonnegProofs Math.WelfordReal Math.WelfordErrorProofs.
 Import ListNotations.
 Open Scope Qc_scope.
 
@@ -244,18 +244,98 @@ Proof.
   repeat (constructor; [split; [eexists; split; reflexivity|reflexivity]|]). constructor.
 Qed.
 
+(* (g) the MAGNITUDE of the error of the Welford variance in binary64 (the function the correspondence evaluates).
+       Data: finite floats X_1..X_n in [lo, hi], |X_i| <= A, hi - lo <= Rr; Welford states finite; n < 2^53.
+       Exact quantities over R:  meanR l = (sum l) / n,  ssdR l = sum (x - meanR l)^2  (WelfordReal.v, where the
+       Welford recurrences  mean' = mean + (x - mean)/k,  ssd' = ssd + (x - mean)(x - mean')  are proved).
+       With u = 2^-53, eta = 2^-1075:
+         eps    = u A + 2 u Rr + eta                         error added to the running mean per item,
+         Eb k   = (k-1) eps                                  |M_k - mean_k| <= Eb k,
+         g k    = 4 u Rr^2 + eta + Rr (Eb k + Eb (k+1)) + Eb k Eb (k+1),
+         Fb 1   = 0,  Fb (k+1) = (Fb k + g k)(1 + u) + u ssd_(k+1)      |S_k - ssd_k| <= Fb k,
+       and every emitted variance v_k (k >= 2; streaming and at completion) satisfies
+         | v_k - ssd_k/(k-1) |  <=  Fb k/(k-1) (1 + u) + u ssd_k/(k-1) + eta,
+       with the closed form  Fb k <= (1+u)^(k-1) (k-1) (g (k-1) + u ssd_k): the relative error is proportional to u,
+       to the count k and to the conditioning of the data (A Rr / variance, Rr^2 / variance). *)
+Theorem C12_float_welford_state_error : forall (h : hints) (l : list Coq.Floats.PrimFloat.float) (lo hi A Rr : R),
+  (- A <= lo)%R -> (hi <= A)%R -> (hi - lo <= Rr)%R ->
+  Forall (fun x => Coq.Floats.PrimFloat.is_finite x = true) l -> Forall (fun x => (lo <= FR x <= hi)%R) l ->
+  (Z.of_nat (length l) < 2 ^ 53)%Z ->
+  Forall state_fin (scan_states (wstep (FA h)) (wseed (FA h)) (map NF l)) ->
+  Forall2 (fun (st : wstate (FA h)) (k : nat) =>
+             exists m s, st = (Some (NF m), s, Z.of_nat k) /\ (lo <= FR m <= hi)%R /\ (0 <= FR (to_f s))%R /\
+               (Rabs (FR m - meanR (firstn k (map FR l))) <= wEb A Rr k)%R /\
+               (Rabs (FR (to_f s) - ssdR (firstn k (map FR l))) <= wFb A Rr (map FR l) k)%R)
+          (scan_states (wstep (FA h)) (wseed (FA h)) (map NF l)) (seq 1 (length l)).
+Proof. exact welford_state_error. Qed.
+Print Assumptions C12_float_welford_state_error.
+Theorem C12_float_variance_error_bound : forall (h : hints) (l : list Coq.Floats.PrimFloat.float) (lo hi A Rr : R),
+  (- A <= lo)%R -> (hi <= A)%R -> (hi - lo <= Rr)%R ->
+  Forall (fun x => Coq.Floats.PrimFloat.is_finite x = true) l -> Forall (fun x => (lo <= FR x <= hi)%R) l ->
+  (Z.of_nat (length l) < 2 ^ 53)%Z ->
+  Forall state_fin (scan_states (wstep (FA h)) (wseed (FA h)) (map NF l)) ->
+  Forall2 (fun (v : num) (k : nat) =>
+             exists f, v = NF f /\ Coq.Floats.PrimFloat.is_finite f = true /\ (0 <= FR f)%R /\
+               ((2 <= k)%nat ->
+                (Rabs (FR f - ssdR (firstn k (map FR l)) / INR (k - 1))
+                 <= wFb A Rr (map FR l) k / INR (k - 1) * (1 + u53)
+                    + u53 * (ssdR (firstn k (map FR l)) / INR (k - 1)) + eta64)%R))
+          (variance_run (FA h) false (map NF l)) (seq 1 (length l)).
+Proof. exact welford_variance_error. Qed.
+Print Assumptions C12_float_variance_error_bound.
+Theorem C12_float_variance_reduce_error_bound : forall (h : hints) (l : list Coq.Floats.PrimFloat.float) (lo hi A Rr : R),
+  (- A <= lo)%R -> (hi <= A)%R -> (hi - lo <= Rr)%R -> l <> [] ->
+  Forall (fun x => Coq.Floats.PrimFloat.is_finite x = true) l -> Forall (fun x => (lo <= FR x <= hi)%R) l ->
+  (Z.of_nat (length l) < 2 ^ 53)%Z ->
+  Forall state_fin (scan_states (wstep (FA h)) (wseed (FA h)) (map NF l)) ->
+  exists f, variance_run (FA h) true (map NF l) = [NF f] /\ Coq.Floats.PrimFloat.is_finite f = true /\ (0 <= FR f)%R /\
+    ((2 <= length l)%nat ->
+     (Rabs (FR f - ssdR (map FR l) / INR (length l - 1))
+      <= wFb A Rr (map FR l) (length l) / INR (length l - 1) * (1 + u53)
+         + u53 * (ssdR (map FR l) / INR (length l - 1)) + eta64)%R).
+Proof. exact welford_variance_reduce_error. Qed.
+Print Assumptions C12_float_variance_reduce_error_bound.
+Theorem C12_float_variance_error_closed_form : forall (A Rr : R) (xs : list R) (k : nat),
+  (0 <= A)%R -> (0 <= Rr)%R -> (1 <= k <= length xs)%nat ->
+  (wFb A Rr xs k <= (1 + u53) ^ (k - 1) * (INR (k - 1) * (wg A Rr (k - 1) + u53 * ssdR (firstn k xs))))%R.
+Proof. exact wFb_closed. Qed.
+Print Assumptions C12_float_variance_error_closed_form.
+Theorem C12_float_variance_error_bound_closed : forall (h : hints) (l : list Coq.Floats.PrimFloat.float) (lo hi A Rr : R),
+  (- A <= lo)%R -> (hi <= A)%R -> (hi - lo <= Rr)%R ->
+  Forall (fun x => Coq.Floats.PrimFloat.is_finite x = true) l -> Forall (fun x => (lo <= FR x <= hi)%R) l ->
+  (Z.of_nat (length l) < 2 ^ 53)%Z ->
+  Forall state_fin (scan_states (wstep (FA h)) (wseed (FA h)) (map NF l)) ->
+  Forall2 (fun (v : num) (k : nat) =>
+             exists f, v = NF f /\ Coq.Floats.PrimFloat.is_finite f = true /\ (0 <= FR f)%R /\
+               ((2 <= k)%nat ->
+                (Rabs (FR f - ssdR (firstn k (map FR l)) / INR (k - 1))
+                 <= (1 + u53) ^ k * (wg A Rr (k - 1) + u53 * ssdR (firstn k (map FR l)))
+                    + u53 * (ssdR (firstn k (map FR l)) / INR (k - 1)) + eta64)%R))
+          (variance_run (FA h) false (map NF l)) (seq 1 (length l)).
+Proof. exact welford_variance_error_closed. Qed.
+Print Assumptions C12_float_variance_error_bound_closed.
+(* the exact quantities are the textbook ones: the Welford recurrences over R *)
+Theorem C12_exact_welford_recurrences_over_R : forall (l : list R) (x : R), (1 <= length l)%nat ->
+  meanR (l ++ [x]) = (meanR l + (x - meanR l) / INR (S (length l)))%R
+  /\ ssdR (l ++ [x]) = (ssdR l + (x - meanR l) * (x - meanR (l ++ [x])))%R.
+Proof. exact (fun l x H => conj (meanR_snoc l x H) (ssdR_snoc l x H)). Qed.
+Print Assumptions C12_exact_welford_recurrences_over_R.
+
 Theorem C12_float_unit_roundoff : u53 = (/ 2 ^ 53)%R.
 Proof. exact u53_value. Qed.
 Print Assumptions C12_float_unit_roundoff.
 
-(* FULL STATEMENT OF C12 (NOT PROVED): for the binary64 instance FA h, every finite float/int sequence xs of
-   length n <= 10^4 without overflow, and every aggregate: the emitted value v_hat and the exact statistic v
-   (as computed by QA on the same numbers) satisfy |v_hat - v| <= c * n * 2^-53 * (kappa + 1) * |v| + tiny, kappa the
-   condition number of the data.  What is proved is the exact-arithmetic half, collected here, and the binary64
-   bounds for `sum`, `mean` (reduce and streaming) and `min`/`max` (exact) above, and for the Welford variance its sign
-   (never negative), its exact value on equal items (zero) and on fewer than two items; for the MAGNITUDE of the error of the Welford
-   variance/stddev and for the two-pass formal variance the binary64 half
-   is tied bit-exactly to the code and its error is measured against exact rationals by the oracle. *)
+(* FULL STATEMENT OF C12 (proved except where noted): for the binary64 instance FA h, every finite float sequence xs
+   without overflow, and every aggregate: the emitted value v_hat and the exact statistic v of the same numbers satisfy
+   |v_hat - v| <= c * n * 2^-53 * (kappa + 1) * |v| + tiny, kappa the condition number of the data.
+   PROVED above: the exact-arithmetic half for every aggregate (collected in C12_partial below), and in binary64 the
+   bounds for `sum` and `mean` (completion and every streaming value), `min`/`max` (exact), and for the Welford
+   `variance` its sign (never negative), its special values (equal items, fewer than two items) and the magnitude of
+   its error (C12_float_variance_error_bound*, completion and every streaming value, with a closed form).
+   NOT PROVED: the binary64 error of `stddev` beyond the fact that its sqrt is always defined (one more correctly
+   rounded operation on the variance bounded above), and the binary64 error of the two-pass formal.variance /
+   formal.stddev (whose inner sums are CPython's compensated builtin sum); int items mixed with floats; for those the
+   binary64 half is tied bit-exactly to the code and its error is measured against exact rationals by the oracle. *)
 Theorem C12_partial : forall (sq : Qc -> Qc) (xs : list Qc),
   sum_run (QA sq) true xs = [qsum xs]
   /\ variance_run (QA sq) true xs = [sample_var xs]
